@@ -3,6 +3,7 @@ package hotline
 import (
 	"bytes"
 	"encoding/binary"
+	"fmt"
 	"io"
 	"slices"
 )
@@ -163,6 +164,12 @@ func (ffif *FlatFileInformationFork) Read(p []byte) (int, error) {
 
 // Write implements the io.Writer interface for FlatFileInformationFork
 func (ffif *FlatFileInformationFork) Write(p []byte) (int, error) {
+	// The bytes may come from a file a client uploaded: check every size against what is there instead of slicing
+	// beyond it.
+	if err := checkInfoForkSizes(p); err != nil {
+		return 0, err
+	}
+
 	nameSize := p[70:72]
 	bs := binary.BigEndian.Uint16(nameSize)
 	total := 72 + int(bs) // int arithmetic: a name of more than 65,463 bytes must not wrap the 16-bit sum
@@ -193,7 +200,36 @@ func (ffif *FlatFileInformationFork) Write(p []byte) (int, error) {
 	return len(p), nil
 }
 
+// checkInfoForkSizes verifies that b holds the fixed part of an information fork, the name it announces and, if anything
+// follows the name, the comment size and the comment it announces.
+func checkInfoForkSizes(b []byte) error {
+	if len(b) < 72 {
+		return fmt.Errorf("information fork of %d bytes is shorter than its fixed part", len(b))
+	}
+
+	nameEnd := 72 + int(binary.BigEndian.Uint16(b[70:72]))
+	if len(b) < nameEnd {
+		return fmt.Errorf("information fork of %d bytes announces a name that ends at byte %d", len(b), nameEnd)
+	}
+
+	if len(b) > nameEnd {
+		if len(b) < nameEnd+2 {
+			return fmt.Errorf("information fork of %d bytes ends inside the comment size", len(b))
+		}
+
+		if commentEnd := nameEnd + 2 + int(binary.BigEndian.Uint16(b[nameEnd:nameEnd+2])); len(b) < commentEnd {
+			return fmt.Errorf("information fork of %d bytes announces a comment that ends at byte %d", len(b), commentEnd)
+		}
+	}
+
+	return nil
+}
+
 func (ffif *FlatFileInformationFork) UnmarshalBinary(b []byte) error {
+	if err := checkInfoForkSizes(b); err != nil {
+		return err
+	}
+
 	nameSize := b[70:72]
 	bs := binary.BigEndian.Uint16(nameSize)
 	nameEnd := 72 + int(bs) // int arithmetic: a name of more than 65,463 bytes must not wrap the 16-bit sum
